@@ -235,6 +235,10 @@ def ref_rows(m: Model, keep_spines=None, S=None, basic=False):
     return out
 
 
+def basic_enc(enc):
+    return enc in ('bkern', 'bekern')
+
+
 def parse_note_ext(t):
     if t in NULLS:
         return NULL
@@ -324,7 +328,17 @@ def _cmp_row(r, got, enc, ext, agn, S, clefctx, bottom_of, strict_sigs, m):
         for gn, en, sn in zip(gnotes, enotes, snotes):
             if en == NULL:
                 if gn not in NULLS:
-                    out.append(('note-not-null', f'{where}: got {gn!r}'))
+                    # a chord note may carry signifiers of the other notes of its chord ("at least their own"), so a chord note
+                    # whose own parts are all filtered out may still show those - and nothing else
+                    ok = False
+                    if e[0] == 'C' and 'DECORATION' in S and not basic_enc(enc):
+                        if ext:
+                            pn = parse_note_ext(gn)
+                            ok = pn != NULL and not pn[1] and set(pn[2]) <= union
+                        else:
+                            ok = set(gn) <= set(''.join(union))
+                    if not ok:
+                        out.append(('note-not-null', f'{where}: got {gn!r}'))
                 continue
             if agn:
                 clef = clefctx[id(c)]['clef'] if clefctx is not None else None
